@@ -12,6 +12,7 @@ THEOREMS = [
     "C14_wf_replace_atomic",
     "C14_copy_io_atomic",
     "C14_copy_io_hard_structure",
+    "C14_copy_io_hard_atomic",
     "C14_copy_chan_atomic",
     "C14_dag_atomic",
     "C14_inherits",
